@@ -124,7 +124,7 @@ func ruleSortCoversMergedData(c *Ctx) {
 		vars := map[types.Object]bool{}
 		walkAll(count, func(m ast.Node) bool {
 			if id, ok := m.(*ast.Ident); ok {
-				if v, isVar := s.Info.ObjectOf(id).(*types.Var); isVar && !isParam(s, v) {
+				if v, isVar := objOf(s.Info, id).(*types.Var); isVar && !isParam(s, v) {
 					vars[v] = true
 				}
 			}
@@ -213,7 +213,7 @@ func ruleHeaderFullSlotCopy(c *Ctx) {
 		var params []types.Object
 		for _, f := range callee.Decl.Type.Params.List {
 			for _, nm := range f.Names {
-				params = append(params, callee.Pkg.TypesInfo.ObjectOf(nm))
+				params = append(params, objOf(callee.Pkg.TypesInfo, nm))
 			}
 		}
 		slots := map[types.Object]bool{}
@@ -289,7 +289,7 @@ func ruleStreamKeyLossless(c *Ctx) {
 						return false
 					}
 				case *ast.Ident:
-					if v, ok := sc.Info.ObjectOf(x).(*types.Var); ok && !v.IsField() {
+					if v, ok := objOf(sc.Info, x).(*types.Var); ok && !v.IsField() {
 						sc.walk(func(d ast.Node) bool {
 							if as, ok := d.(*ast.AssignStmt); ok {
 								for i, l := range as.Lhs {
@@ -377,7 +377,7 @@ func ruleLazyLoadOnce(c *Ctx) {
 		if len(accs) == 0 {
 			continue
 		}
-		recv := sc.Info.ObjectOf(sc.Fn.Decl.Recv.List[0].Names[0])
+		recv := objOf(sc.Info, sc.Fn.Decl.Recv.List[0].Names[0])
 		once := func(sub, top ast.Node) bool {
 			cx, ok := sub.(*ast.CallExpr)
 			return ok && CalleeName(sc.Info, cx) == "(*sync.Once).Do" && recvField(sc.Info, cx) == "utils/io.TimeBucketInfo.once"
